@@ -74,17 +74,19 @@ Definition assignable (f : ofam) : bool := match f with FSound | FSprite | FCast
 
 (* the zero-operand "the" forms of the 5C family: the <special property> (5C 00, numbers 0-5), the <date / time
    function> (5C 00, numbers 6-11) and the <system property> (5C 07) *)
-Inductive thekind := TSpecial | TDateTime | TSystem.
+Inductive thekind := TSpecial | TDateTime | TSystem | TNumOf.     (* TNumOf: the number of castMembers / menus, the perFrameHook (5C 08) *)
 Definition the_num (k : thekind) (i : nat) : Z := match k with TDateTime => Z.of_nat i + 6 | _ => Z.of_nat i end.
-Definition the_code (k : thekind) : Z := match k with TSystem => 7 | _ => 0 end.
+Definition the_code (k : thekind) : Z := match k with TSystem => 7 | TNumOf => 8 | _ => 0 end.
 Definition the_table (k : thekind) : list string :=
-  match k with TSpecial => SPECIAL_PROPERTIES | TDateTime => DATE_TIME_FUNCTIONS | TSystem => map fst SYSTEM_PROPERTIES end.
+  match k with TSpecial => SPECIAL_PROPERTIES | TDateTime => DATE_TIME_FUNCTIONS | TSystem => map fst SYSTEM_PROPERTIES | TNumOf => NUM_OF_TYPES end.
 Definition the_node (k : thekind) (i : nat) (po : Z) : node :=
   let name := nth i (the_table k) "" in
   match k with
   | TSpecial => Leaf KPropName name po true
   | TDateTime => Leaf KDateTime name po true
   | TSystem => Accessor po (Leaf KLocal (assoc_or name SYSTEM_PROPERTIES) po true) name
+  | TNumOf => if String.eqb name "perFrameHook" then Accessor po (Leaf KLocal "_system" po true) "perFrameHook"
+              else UStrOp "number" po None (Leaf KLocal name po true)
   end.
 
 (* a property addressed by name: attached to its runtime object when the decompiler's table knows one *)
